@@ -420,3 +420,58 @@ pub fn gammainfo() {
         }
     }
 }
+
+/// `vh candsearch N start count out`: seeds for which key generation draws 65 or more candidates before it accepts one
+/// (a retry budget, a counter that wraps, a generator that is re-seeded after many draws shows only there).  Cheap replay
+/// with `gen_poly` and the cheap guards, confirmed by the trace of the real key generation.
+pub fn candsearch(n: usize, start: u64, count: u64, outfile: &str) {
+    use rand::SeedableRng;
+    let next = Arc::new(AtomicU64::new(start));
+    let out = Arc::new(Mutex::new(std::io::BufWriter::new(std::fs::File::create(outfile).unwrap())));
+    let lim: i16 = if n == 512 { 32 } else { 16 };
+    let mut hs = vec![];
+    for _ in 0..16 {
+        let (next, out) = (next.clone(), out.clone());
+        hs.push(std::thread::Builder::new().stack_size(64 << 20).spawn(move || loop {
+            let i = next.fetch_add(1, Ordering::SeqCst);
+            if i >= start + count {
+                break;
+            }
+            let mut rng = rand::rngs::StdRng::from_seed(special_seed(i));
+            let mut cand = 0usize;
+            for c in 1..400 {
+                let f = vh::gen_poly(n, &mut rng);
+                let g = vh::gen_poly(n, &mut rng);
+                if f.iter().chain(g.iter()).any(|x| x.abs() >= lim) {
+                    continue;
+                }
+                let fq: Vec<u32> = f.iter().map(|&x| (x as i64).rem_euclid(12289) as u32).collect();
+                if vh::felt_fft(&fq).iter().any(|&v| v == 0) || vh::gram_schmidt_norm_squared(&f, &g) > 1.3689 * 12289.0 {
+                    continue;
+                }
+                cand = c;
+                break;
+            }
+            if cand >= 65 {
+                vh::trace_start(false);
+                let r = std::panic::catch_unwind(|| {
+                    if n == 512 {
+                        let _ = falcon512::SecretKey::verif_gen_b0(special_seed(i));
+                    } else {
+                        let _ = falcon1024::SecretKey::verif_gen_b0(special_seed(i));
+                    }
+                });
+                let ev = vh::trace_take();
+                let drawn = ev.iter().filter(|e| e.tag == "keygen.drawn").count();
+                if r.is_ok() && drawn >= 65 {
+                    let mut o = out.lock().unwrap();
+                    writeln!(o, "{n} {i} many_candidates cand={drawn}").unwrap();
+                    o.flush().unwrap();
+                }
+            }
+        }).unwrap());
+    }
+    for h in hs {
+        h.join().unwrap();
+    }
+}
